@@ -44,7 +44,9 @@ func VerifC10_q_multiIPPod() {
 
 
 // BOUND: cloud provider configured; topology 0; a statefulset pod (symbolic policy) bound on n1, finished (event handled) and deleted (its delete event still pending = late event of the old incarnation); the same-named pod is re-created (new UID), filtered, and its Bind on any approved node among n1,n5 runs while, as a second logical thread starting inside any one window of that Bind (API-server, provider or IPAM call; symbolic window 0..14), the late event is handled; the second thread parks wherever it needs the pod key lock Bind holds and continues when Bind releases it
-func VerifC10_q_bindVsLateEvent() {
+func VerifC10_q_bindVsLateEvent() { vpBindVsLateEvent("C10") }
+
+func vpBindVsLateEvent(prop string) {
 	w := vpNewWorld(0, true)
 	if err := w.configure(); err != nil {
 		return
@@ -87,7 +89,7 @@ func VerifC10_q_bindVsLateEvent() {
 	w.setRunning(name)
 	w.syncListers()
 	verifReach("late-event-overlapped-bind")
-	w.checkAll("C10", "a late event of the old incarnation handled while the new incarnation was being bound")
+	w.checkAll(prop, "a late event of the old incarnation handled while the new incarnation was being bound")
 }
 
 // BOUND: cloud provider configured; topology 0; two statefulset pods ss-0, ss-1 bound on n1 (symbolic policy); ss-0 vanishes without event (so the resync pass has work); a resync pass runs and, atomically inside any one window right before/after one of its API-server / provider calls (symbolic window 0..12), ss-1 moves: deleted, event handled, re-created with a new UID, bound on n5 (same node subnet), and then optionally deleted again with its event still queued (not running when the pass reaches it); afterwards queued events are handled and the same-named pod is re-created once more and bound on n1. The provider's per-IP state machine asserts inside every AssignIP / UnAssignIP and inside every store delete / re-key
